@@ -172,6 +172,73 @@ def enclosing_loops(prov, fn, bid):
     return out
 
 
+def loop_is_exhaustive(fn, nb, ab):
+    """the loop driven by the `next()` call in block `nb` runs block `ab` once for every element and ends only when the iterator
+    is exhausted: once `next` has yielded an element, neither the next request nor anything behind the loop is reached
+    without passing `ab` (no `continue` around it), and nothing behind the loop is reached without asking for a further
+    element (no `break`, no `return`).  Paths that cannot reach a return (panics) do not count as leaving the loop."""
+    cf = cfg_of(fn)
+    sw = cf.after_call_node(nb)
+    some = [e for e, v, n, b in cf.switch_edges(sw) if n == "Some"] if sw is not None else []
+    if len(some) != 1:
+        return False
+    rets = set(cf.return_blocks())
+    loop = {b for b in fn.order if b == nb or (cf.can_reach(nb, b) and cf.can_reach(b, nb))}
+    live_out = {b for b in fn.order if b not in loop and (b in rets or any(cf.can_reach(b, r) for r in rets))}
+    skip = cf.reachable_from(some[0], avoid=[ab])
+    stop = cf.reachable_from(some[0], avoid=[nb])
+    return nb not in skip and not (live_out & set(skip)) and not (live_out & set(stop))
+
+
+def counted_loop(prov, facts, fn, o):
+    """`let mut n = 0; for _ in ITER { n += 1 }`: when the origin `o` is such a counter - a local that starts at the constant 0 and
+    is incremented by the constant 1, unconditionally, once per element of an exhaustive loop - the iterator as written
+    (what `.count()` would have been called on); None otherwise"""
+    from .prov import strip_adapters
+    from . import pipeline
+    core = peel(o)
+    while core[0] in ("cast", "unop") and len(core) == 3:
+        core = peel(core[2])
+    for bid, i, st in fn.stmts():
+        rv = st.get("rv", {})
+        if not (st["k"] == "assign" and rv.get("k") in ("binop", "checked_binop") and rv.get("op") == "add"):
+            continue
+        a, b = rv["a"], rv["b"]
+        if not (a.get("k") in ("copy", "move") and not a["place"]["p"] and b.get("k") == "const" and b.get("int") == 1):
+            continue
+        L = a["place"]["l"]
+        # the counter's definitions: the constant 0 and the incremented value, nothing else
+        defs = prov.defs(fn).get(L, [])
+        kinds = []
+        for d in defs:
+            if d[0] != "assign" or d[3]["dst"]["p"]:
+                kinds.append("other")
+                continue
+            r = d[3]["rv"]
+            if r.get("k") == "use" and r["op"].get("k") == "const" and r["op"].get("int") == 0:
+                kinds.append("zero")
+            elif r.get("k") == "use" and r["op"].get("k") in ("copy", "move") and r["op"]["place"]["l"] == st["dst"]["l"]:
+                kinds.append("inc")
+            else:
+                kinds.append("other")
+        if sorted(kinds) != ["inc", "zero"]:
+            continue
+        # the value asked about is this counter: {0 | <itself> + 1}
+        al = [peel(x) for x in alts(core)]
+        if not (len(al) == 2 and ("const", "int", 0) in al and any(contains(x, lambda y: y[0] == "binop" and y[1] == "add" and peel(y[3]) == ("const", "int", 1)) for x in al)):
+            continue
+        loops = enclosing_loops(prov, fn, bid)
+        if len(loops) != 1:
+            continue
+        nb, src = loops[0]
+        if pipeline._elem_conds(conditions_at(prov, facts, fn, bid)):
+            continue
+        if not loop_is_exhaustive(fn, nb, bid):
+            continue
+        return src
+    return None
+
+
 def loops_of(prov, fn):
     """every loop driven by an iterator in `fn`: [(block of the next() call, iterator origin as written)]"""
     return [(nb, prov.call_args(fn, t, nb)[0]) for nb, t in fn.calls()
